@@ -507,6 +507,76 @@ def _single_def(iv, l):
     return ds[0] if len(ds) == 1 else None
 
 
+def _closure_arg(iv, l):
+    """is local l (through single-definition copies) the closure's own argument?"""
+    hops = 0
+    while l is not None and hops < 6:
+        hops += 1
+        if l == 2 and [d_[0] for d_ in iv.defs.defs.get(l, [])] in ([], ['param']):
+            return True
+        d = _single_def(iv, l)
+        if not d or d[0] != 'assign':
+            return False
+        rv = d[2]['rv']
+        l = op_local(rv['op']) if rv['r'] == 'use' and rv['op']['k'] in ('copy', 'move') and not rv['op']['pl']['p'] else None
+    return False
+
+
+def _closure_fed_by_find(F, fn):
+    """fn is a closure `|loc| ..` passed to Option::map/and_then/.. on the result of `X.find(pat)` in its parent:
+    returns (parent fn, parent Intervals, find call terminator, capture operands of the closure) or None"""
+    if not fn.is_closure:
+        return None
+    parent = F.fns.get(re.sub(r'::\{closure#\d+\}$', '', fn.name))
+    if parent is None:
+        return None
+    piv = Intervals(F, parent)
+    for bid, st in parent.stmts():
+        rv = st['rv']
+        if rv['r'] == 'agg' and rv['kind'].get('a') == 'closure' and rv['kind'].get('def') == fn.name and not st['lhs']['p']:
+            cl = st['lhs']['l']
+            for b2, t in parent.calls():
+                if not re.search(r'Option::(map|and_then|map_or|map_or_else|filter|is_some_and|inspect)$', strip_args(cdef(t))):
+                    continue
+                if not any(op_local(a) == cl for a in t['args'][1:]):
+                    continue
+                d = _single_def(piv, op_local(t['args'][0])) if t['args'] and op_local(t['args'][0]) is not None else None
+                hops = 0
+                while d and d[0] == 'assign' and hops < 4:
+                    hops += 1
+                    rv2 = d[2]['rv']
+                    nx = op_local(rv2['op']) if rv2['r'] == 'use' and rv2['op']['k'] in ('copy', 'move') and not rv2['op']['pl']['p'] else None
+                    d = _single_def(piv, nx) if nx is not None else None
+                if d and d[0] == 'call' and re.search(r'str::find$|str::rfind$', strip_args(cdef(d[2]))):
+                    return parent, piv, d[2], rv['ops']
+    return None
+
+
+def _onebyte_pattern(F, fn, iv, pat):
+    if pat['k'] == 'const' and 'int' in pat and 0 <= int(pat['int']) < 128:
+        return True
+    if pat['k'] == 'const' and re.match(r"^const '.'$", pat.get('s', '') or ''):
+        return ord(pat['s'][7]) < 128
+    l = op_local(pat)
+    hops = 0
+    while l is not None and hops < 6:
+        hops += 1
+        dd = _single_def(iv, l)
+        if dd is None or dd[0] != 'assign':
+            return False
+        rv = dd[2]['rv']
+        if rv['r'] == 'use' and rv['op']['k'] == 'const' and 'promoted' in rv['op']:
+            pv = F.promoted_value(fn, rv['op']['promoted'])
+            return bool(pv and pv[0] == 'array' and pv[1] and all(isinstance(x, int) and 0 <= x < 128 for x in pv[1]))
+        if rv['r'] in ('use', 'cast') and rv['op']['k'] in ('copy', 'move'):
+            l = op_local(rv['op'])
+        elif rv['r'] == 'ref':
+            l = rv['pl']['l']
+        else:
+            return False
+    return False
+
+
 def _str_find_slice(F, fn, iv, site, base, bound_op, is_range):
     """D4 (std contract): a `str` sliced / split at the byte index returned by `find` on that same string - or one
     past it when the pattern matched is a one-byte (ASCII) char - is on a char boundary and within bounds, provided
@@ -525,6 +595,8 @@ def _str_find_slice(F, fn, iv, site, base, bound_op, is_range):
         plus = 0
         while l is not None and seen < 8:
             seen += 1
+            if fn.is_closure and l == 2 and [d_[0] for d_ in iv.defs.defs.get(l, [])] in ([], ['param']):
+                return ('closure-param', plus)
             d = _single_def(iv, l)
             if d is None or d[0] != 'assign':
                 return None
@@ -575,6 +647,21 @@ def _str_find_slice(F, fn, iv, site, base, bound_op, is_range):
         if src is None or src[1] > 1:
             return None
         opt, plus = src
+        if opt == 'closure-param':
+            fed = _closure_fed_by_find(F, fn)
+            if fed is None:
+                return None
+            parent, piv, ftm, caps = fed
+            # the string sliced here must be the captured string the parent searched
+            if not (root_base[0] == 1 and root_base[1] and root_base[1][0][0] == 'f'):
+                return None
+            k = root_base[1][0][1]
+            if k >= len(caps) or caps[k]['k'] not in ('copy', 'move') or piv.canon(caps[k]) != piv.canon(ftm['args'][0]):
+                return None
+            if plus and not _onebyte_pattern(F, parent, piv, ftm['args'][1]):
+                return None
+            whys.append('the closure argument is the payload of find(..) on the captured string%s' % (' +1 past a one-byte pattern' if plus else ''))
+            continue
         dcall = _single_def(iv, opt)
         if dcall is None or dcall[0] != 'call' or not re.search(r'str::find$|str::rfind$', strip_args(cdef(dcall[2]))):
             return None
@@ -629,6 +716,74 @@ def _str_find_slice(F, fn, iv, site, base, bound_op, is_range):
     return 'D4: sliced at the byte index returned by str::find on the same string (%s), under its Some arm: a char boundary within bounds' % ', '.join(whys)
 
 
+ADAPTORS = re.compile(r'Iterator::(rev|take_while|skip_while|filter|take|skip|enumerate|by_ref|copied|cloned|map|zip|peekable|fuse|inspect|step_by)$|IntoIterator::into_iter$')
+ELEMENTS = re.compile(r'str::(bytes|chars|char_indices)$|slice::iter$|Vec::iter$|String::(bytes|chars)$')
+
+
+def _len_minus_count(F, fn, iv, a, b):
+    """D5: `x.len() - it.count()` cannot underflow when `it` walks the elements of x (through adaptors that only drop or
+    pair elements): the count is at most the length"""
+    la, lb = op_local(a), op_local(b)
+    if la is None or lb is None:
+        return None
+    def to_call(l):
+        d, hops = _single_def(iv, l), 0
+        while d and d[0] == 'assign' and hops < 6:
+            hops += 1
+            rv = d[2]['rv']
+            nx = op_local(rv['op']) if rv['r'] in ('use', 'cast') and rv['op']['k'] in ('copy', 'move') and not rv['op']['pl']['p'] else None
+            d = _single_def(iv, nx) if nx is not None else None
+        return d
+    da, db = to_call(la), to_call(lb)
+    if not da or not db or da[0] != 'call' or db[0] != 'call':
+        return None
+    if not re.search(r'::len$', strip_args(cdef(da[2]))) or not re.search(r'Iterator::count$', strip_args(cdef(db[2]))):
+        return None
+    base = iv.canon(da[2]['args'][0])
+    if base is None:
+        return None
+    work = [op_local(db[2]['args'][0])]
+    seen = 0
+    while work and seen < 24:
+        l = work.pop()
+        seen += 1
+        if l is None:
+            continue
+        d = _single_def(iv, l)
+        if d is None:
+            continue
+        if d[0] == 'assign':
+            rv = d[2]['rv']
+            if rv['r'] in ('use', 'cast') and rv['op']['k'] in ('copy', 'move'):
+                work.append(op_local(rv['op']))
+            elif rv['r'] == 'ref':
+                work.append(rv['pl']['l'])
+            continue
+        dd = strip_args(cdef(d[2]))
+        if ELEMENTS.search(dd) and d[2]['args']:
+            src = d[2]['args'][0]
+            c = iv.canon(src)
+            if c == base:
+                return 'D5: the count of an iterator over the elements of the same value cannot exceed its len()'
+            # through Deref (String -> str, Vec -> [T])
+            l2 = op_local(src)
+            d2 = _single_def(iv, l2) if l2 is not None else None
+            hops = 0
+            while d2 and d2[0] == 'assign' and hops < 6:
+                hops += 1
+                rv2 = d2[2]['rv']
+                nx = rv2['pl']['l'] if rv2['r'] == 'ref' else (op_local(rv2['op']) if rv2['r'] in ('use', 'cast') and rv2['op']['k'] in ('copy', 'move') else None)
+                d2 = _single_def(iv, nx) if nx is not None else None
+            if d2 and d2[0] == 'call' and re.search(r'Deref::deref$|String::as_str$|Vec::as_slice$|String::as_bytes$|str::as_bytes$', strip_args(cdef(d2[2]))) and iv.canon(d2[2]['args'][0]) == base:
+                return 'D5: the count of an iterator over the elements of the same value cannot exceed its len()'
+            continue
+        if ADAPTORS.search(dd):
+            for x in d[2]['args']:
+                if x['k'] in ('copy', 'move'):
+                    work.append(op_local(x))
+    return None
+
+
 def auto_discharge(F, site, iv=None):
     """returns reason string if the site provably cannot fire, else None"""
     t = site.term
@@ -639,6 +794,16 @@ def auto_discharge(F, site, iv=None):
     def opty(o):
         return strip_lt(o.get('ty') or o.get('pl', {}).get('ty', '')).lstrip('&')
 
+    if site.kind == 'assert:Overflow:Add' and fn.is_closure:
+        ops_ = t['ops']
+        for x_, y_ in ((ops_[0], ops_[1]), (ops_[1], ops_[0])):
+            if y_['k'] == 'const' and y_.get('int') == '1' and x_['k'] in ('copy', 'move') and not x_['pl']['p'] and _closure_arg(iv, x_['pl']['l']) \
+                    and _closure_fed_by_find(F, fn) is not None:
+                return 'D4: the closure argument is an index returned by str::find (< len <= isize::MAX): adding 1 cannot overflow'
+    if site.kind == 'assert:Overflow:Sub':
+        r = _len_minus_count(F, fn, iv, t['ops'][0], t['ops'][1])
+        if r:
+            return r
     if site.kind.startswith('assert:Overflow:'):
         op = site.kind.split(':')[2]
         a, b = t['ops']
